@@ -51,6 +51,10 @@ TypedDomain == { <<t, vs>> : t \in AllTypes, vs \in { <<>> } } \cup
                        \cup { <<t, <<BVals(t)[1], BVals(t)[2], BVals(t)[3], BVals(t)[4]>>>> } : t \in AllTypes }
 EmitTyped(x) == PrintT(ToJson([k |-> "typed", t |-> x[1], code |-> TypeCode(x[1]), vals |-> x[2], b |-> EncElems(x[1], x[2])]))
 
+\* the fourteenth element type: STRUCT (0x02A0) -- a structure handle followed by the record's octets (opaque)
+StructDomain == { <<h, raw>> : h \in {1, 4660, 65535}, raw \in { <<>>, <<7>>, <<1, 2, 3, 4, 5>>, <<0, 0, 0, 0, 255, 255, 255, 255>> } }
+EmitStruct(x) == PrintT(ToJson([k |-> "struct", handle |-> x[1], raw |-> x[2], b |-> U16(x[1]) \o x[2]]))
+
 \* Logix / attribute services and the Multiple Service Packet: requests, and every reply the model allows
 WCfg == [ budget |-> 6,
           tags |-> << [name |-> <<83, 67, 65, 68, 65>>, type |-> "INT", len |-> 4, scalar |-> FALSE, cia |-> <<2, 1, 1>>],
@@ -177,7 +181,7 @@ EmitCPF(items) == PrintT(ToJson([k |-> "cpf", items |-> items, b |-> EncCPF([ i 
 
 ASSUME CASE Which = "epath"  -> \A p \in Paths : EmitEPath(p)
          [] Which = "status" -> \A x \in StatusDomain : EmitStatus(x)
-         [] Which = "typed"  -> \A x \in TypedDomain : EmitTyped(x)
+         [] Which = "typed"  -> (\A x \in TypedDomain : EmitTyped(x)) /\ (\A x \in StructDomain : EmitStruct(x))
          [] Which = "logix"  -> (\A r \in WReqs : EmitLogix(r)) /\ (\A ms \in Bundles : EmitBundleW(ms))
          [] Which = "ucsend" -> \A x \in UCDomain : EmitUC(x)
          [] Which = "frames" -> \A f \in FrameDomain \cup ListFrames : EmitFrame(f)
